@@ -579,10 +579,7 @@ def py_isinstance(ex, args, kwargs, node):
     if isinstance(v, Opaque):
         if v.pytype is not None:
             return v.pytype == tn or tn.endswith("." + v.pytype)
-        key = "isinstance:" + tn
-        if key not in v.ghost:
-            v.ghost[key] = z3.Bool(fresh_name(f"isinstance_{tn}"))
-        return v.ghost[key]
+        return z3.Function("isinstance_" + tn.split(".")[-1], V.USORT, V.BOOL)(v.term)
     if isinstance(v, (Arr, Small)):
         return tn in ("ndarray", "numpy.ndarray")
     if isinstance(v, (list, tuple, dict, str, int, float)) and not isinstance(v, bool):
